@@ -32,6 +32,11 @@ for n, m in itertools.product(range(1, 7), range(1, 8)):
     r, c = lentil.centroid(img)
     ii, jj = np.indices((n, m))
     b.check(abs(r - (ii * img).sum() / img.sum()) < 1e-12 and abs(c - (jj * img).sum() / img.sum()) < 1e-12, {'shape': (n, m)})
+    # signed data with a total well away from zero: still first moment over the (signed) total
+    sg = rng.uniform(-0.4, 1, size=(n, m))
+    if abs(sg.sum()) > 0.2:
+        r, c = lentil.centroid(sg)
+        b.check(abs(r - (ii * sg).sum() / sg.sum()) < 1e-10 and abs(c - (jj * sg).sum() / sg.sum()) < 1e-10, {'shape': (n, m), 'signed': True})
 out.append(b)
 
 # pad then crop back is the identity (also proved from the pad model; native confirmation)
